@@ -32,6 +32,7 @@ FRAGMENTS = [
     ("WakeMap", "gen_wakemap"),
     ("H5Read", "gen_h5read"),
     ("PPlates", "gen_pplates"),
+    ("FPApply", "gen_fpapply"),
 ]
 
 
